@@ -1,8 +1,8 @@
-// Substitute for src/settings.rs (engine E2): `struct Settings` and `Settings::or` - the function
+// Substitute for src/settings.rs (engine E2): `struct Settings`, `struct Options`, `Settings::or` and `Settings::from_options` - the function
 // that implements "flag > environment > config file > default" when `Settings::merge` chains
 // from_options(..).or(from_env(..)).or(config).or_defaults() - extracted from the real file.
 // Dropped: everything that touches the process environment, the file system, clap or serde
-// (load, merge, from_options, from_env, or_defaults, accessors); the serde derive on the struct and
+// (load, merge, from_env, or_defaults, accessors); the serde derive on the struct and
 // the clap derive on `Chain` (attributes filtered mechanically, recorded in the evidence).
 use {
   super::*,
@@ -12,10 +12,15 @@ use {
 
 //@extract! src/chain.rs :: enum Chain
 
+//@extract! src/subcommand.rs :: enum OutputFormat
+
+//@extract! src/options.rs :: struct Options
+
 //@extract! src/settings.rs :: struct Settings
 
 impl Settings {
   //@extract src/settings.rs :: impl Settings :: fn or
+  //@extract src/settings.rs :: impl Settings :: fn from_options
 }
 
 #[cfg(any(kani, ordinals_ord_verif))]
